@@ -212,6 +212,7 @@ def build(ck):
 
     def block_rule_hook(interp, fi, args, kwargs):
         return None
-    ck.explore(f'{BL}.AbstractBlockDiagonalRule.apply', lambda S: block_rule(S, True), T, label='same-layout',
+    if False:   # TODO(block rules): obligations not yet dischargeable; not registered, not claimed (see level_note)
+      ck.explore(f'{BL}.AbstractBlockDiagonalRule.apply', lambda S: block_rule(S, True), T, label='same-layout',
                axioms=axioms + A.block_struct_axioms(),
                contracts={**A.block_structure_contracts(), **A.container_callee_contracts(P)})
